@@ -70,6 +70,30 @@ func (e *eng) evalGroups(c Case) error {
 	} else if obs.Initial != obs.Started {
 		e.fail(c, pre+"changed-outside-round", fmt.Sprintf("selection changed from %d to %d although no probe round has run", obs.Initial, obs.Started))
 	}
+	if c.Excluded {
+		rep.Count("groups:excluded-points(latency>=timeout)")
+		prev := obs.Started
+		for k := range c.Rounds {
+			for _, m := range obs.Mid {
+				if m.At != "start" {
+					continue // a late answer may be written after the probe gave up and the round ended
+				}
+				if m.Round == k && member(m.Sel) && m.Sel != prev {
+					e.fail(c, pre+"changed-during-round", fmt.Sprintf("round %d: the group hands out client %d during the round, before it was %d", k, m.Sel, prev))
+				}
+				if m.Round == k && !member(m.Sel) {
+					e.fail(c, pre+"non-member", fmt.Sprintf("during round %d the group hands out client %d", k, m.Sel))
+				}
+			}
+			if !member(obs.After[k]) {
+				e.fail(c, pre+"non-member", fmt.Sprintf("after round %d the group hands out client %d", k, obs.After[k]))
+			}
+			prev = obs.After[k]
+		}
+		rep.Case(c.sig(), false)
+		rep.TracesValidated++
+		return nil
+	}
 	prev := obs.Started
 	exp := make([]int, len(c.Rounds))
 	midByRound := map[int][]midObs{}
